@@ -26,8 +26,14 @@ func parserFamily(c *Ctx, kind string) []*family.Grammar {
 		small := family.Dedup(family.Basis(3))
 		gs = append(gs, small...)
 		gs = append(gs, basis[len(small):]...) // every well-formed expression of size 4
+		// and a seeded sample of the 18 871 well-formed expressions of size 5
+		big := family.Dedup(family.Basis(5))
+		gs = append(gs, family.Sample(big[len(basis):], 2500, c.Seed+2)...)
 	} else {
 		gs = append(gs, basis...)
+		// a seeded sample of size 4 (all of it is in the thorough tier)
+		four := family.Dedup(family.Basis(4))
+		gs = append(gs, family.Sample(four[len(basis):], 120, c.Seed+2)...)
 	}
 	gs = append(gs, family.Sample(family.Dedup(family.TerminalLayer()), nTerm, c.Seed)...)
 	// multi-rule variants of a seeded sample of the basis
